@@ -267,6 +267,35 @@ def records(ctx, rng, nid):
                 out = {'raised': type(e).__name__ + ':' + str(e)[:60]}
             recs.append({'id': 'same-%d' % next(nid), 'op': 'same', 'site': 'Integration.%s' % ic.FUNCS[P],
                          'in': {'law': 'ReferenceSizeInvariance', 'c': common.rat(c), 'P': P, 'mode': case['mode'] + '/' + variant, 'frozen': case['frozen']}, 'out': out})
+    # (b7) "output scales with theta0" starts from the documented default theta0 = 1: after an equilibrium density was
+    # built with another mutation rate in the same process, an integration that leaves theta0 at its default equals the
+    # same integration with theta0 = 1 written out
+    rw = random.Random(ctx.seed + 3307)
+    for P in (1, 2, 3, 4, 5):
+        case = ic.gen_case(rw, P, kind='normal', n={1: 12, 2: 8, 3: 6, 4: 5, 5: 4}[P], mode=rw.choice(['const', 'linear']))
+        case['t0'] = 0.0
+        case['frozen'] = [False] * P
+        case['nomut'] = [False] * P
+        xx = rand_grid(random.Random(case['grid_seed']), case['n'], case['grid_kind'])
+        phi0 = rand_density(random.Random(case['phi_seed']), [case['n']] * P)
+        dts = []
+        for k in range(1, P + 1):
+            p_ = case['par'][k - 1]
+            ms = [p_['mig'][j]['c0'] for j in range(P) if j != k - 1] or [0]
+            dts.append(Integration._compute_dt(np.diff(xx), p_['nu']['c0'], ms, p_['gamma']['c0'], p_['h']['c0']))
+        T = rw.uniform(2.2, 4.5) * min(dts)
+        f = getattr(Integration, ic.FUNCS[P])
+        try:
+            PhiManip.phi_1D(Numerics.default_grid(20), theta0=2.9 + P)          # another mutation rate was used earlier
+            kw = _kwargs(dict(case, theta0={'c0': 1.0, 'c1': 0.0}))
+            y = f(phi0.copy(), xx, T, **kw)
+            kw.pop('theta0')
+            x = f(phi0.copy(), xx, T, **kw)
+            out = {'x': common.rats(x.ravel()), 'y': common.rats(y.ravel())}
+        except Exception as e:
+            out = {'raised': type(e).__name__ + ':' + str(e)[:60]}
+        recs.append({'id': 'same-%d' % next(nid), 'op': 'same', 'site': 'Integration.%s' % ic.FUNCS[P],
+                     'in': {'law': 'DefaultMutationRateIsOne', 'c': '1', 'P': P, 'mode': case['mode'] + '/default-theta0', 'frozen': case['frozen']}, 'out': out})
     # (c) whole models built from the public API: equilibrium, size change, split, migration, selection, admixture
     for r in range(8 if ctx.quick else 60):
         recs.append(model_record(rng, nid))
